@@ -37,6 +37,7 @@ type Profile struct {
 	Nested   bool // visits may carry nested ops
 	ReopenNoDrop bool // only Close+Reopen (reference counting needs Close)
 	PlainNames bool // always the plain collection names (engines that address "a","b" literally)
+	Framed int // percentage of cases whose value callbacks frame every value with a 4-byte trailer
 	HugeNames bool // rarely: a 70 000-byte collection name (root records beyond 64 KiB)
 	NestedKinds []string // ops a visitor callback may run (default nestedKinds)
 	Stores   int  // max extra unrelated stores
@@ -343,6 +344,9 @@ func GenCase(p *Profile) *rapid.Generator[Case] {
 			c.Cfg.NameSet = len(NameSets) - 1
 		}
 		curNameSet = c.Cfg.NameSet
+		if p.Framed > 0 && uni(t, 100, "framed") < p.Framed {
+			c.Cfg.Framed = true
+		}
 		if p.Stores > 0 {
 			c.Cfg.Stores = rapid.IntRange(0, p.Stores).Draw(t, "stores")
 		}
